@@ -83,7 +83,7 @@ class StrEval:
         if k == 'ConditionalOperator':
             c, a, b = kids(n)
             return self.ev(f, a if self.truth(self.ev(f, c, env, depth)) else b, env, depth)
-        if k in ('BinaryOperator', 'CXXOperatorCallExpr'):
+        if k in ('BinaryOperator', 'CXXOperatorCallExpr') and n.get('op') != '()':
             ks = kids(n) if k == 'BinaryOperator' else kids(n)[1:]
             op = n.get('op')
             if op == '&&':
@@ -164,6 +164,11 @@ class StrEval:
                 if isinstance(b, Opaque) and isinstance(e, Opaque):
                     return Opaque('find:%s:%s:%r' % (b.what, e.what, x))
                 raise Unknown('std::find over %r' % (b,))
+            if n.get('op') == '()' and len(kids(n)) > 1:
+                lam = self.ev(f, kids(n)[1], env, depth)
+                if isinstance(lam, tuple) and lam and lam[0] == 'lambda' and depth < self.max_depth:
+                    args = [self.ev(f, a, env, depth) for a in kids(n)[2:]]
+                    return self.call(lam[1], args, depth + 1, outer=lam[2] if len(lam) > 2 else None)
             g = self.p.funcs.get(cal.get('fid'))
             if g is not None and g.body is not None and depth < self.max_depth:
                 args = [self.ev(f, a, env, depth) for a in kids(n)[1:] if a['k'] != 'CXXDefaultArgExpr']
@@ -173,13 +178,13 @@ class StrEval:
                 lam = self.ev(f, kids(n)[1], env, depth) if len(kids(n)) > 1 else None
                 if isinstance(lam, tuple) and lam and lam[0] == 'lambda':
                     args = [self.ev(f, a, env, depth) for a in kids(n)[2:]]
-                    return self.call(lam[1], args, depth + 1)
+                    return self.call(lam[1], args, depth + 1, outer=lam[2] if len(lam) > 2 else None)
             raise Unknown('call of %s' % nm_)
         if k == 'LambdaExpr':
             g = self.p.funcs.get(n.get('lambda'))
             if g is None:
                 raise Unknown('lambda')
-            return ('lambda', g)
+            return ('lambda', g, env)           # captured variables are read from the environment it was written in
         raise Unknown('expression %s' % k)
 
     def truth(self, v):
@@ -188,8 +193,8 @@ class StrEval:
         return bool(v)
 
     # ---- statements ----------------------------------------------------------------------------------------------------------
-    def call(self, g, args, depth=0):
-        env = {}
+    def call(self, g, args, depth=0, outer=None):
+        env = dict(outer) if outer else {}
         for q, a in zip(g.params, args):
             env[q['name']] = a
         try:
